@@ -73,11 +73,16 @@ def gen(tier, seed, shard, nshards):
         W = gmat.weighted(rng, out, "signed" if k % 2 else "int")
         means = np.round(rng.uniform(-3, 3, p), 3)
         variances = np.round(rng.uniform(0.1, 4, p), 3)
+        if k % 4 == 0:     # other units: noise variances down to 1e-18 / up to 1e12
+            sc = float(10.0 ** rng.integers(-9, 7))
+            means, variances = means * sc, variances * sc * sc
+        else:
+            sc = 1.0
         iv = {"do": {}, "noise": {}, "shift": {}}
         if k % 3:
-            for j in range(p):
+            for j in (int(v) for v in rng.permutation(p)):
                 r = rng.random()
-                par = (float(np.round(rng.uniform(-3, 3), 2)), float(np.round(rng.uniform(0.1, 3), 2)))
+                par = (float(np.round(rng.uniform(-3, 3), 2)) * sc, float(np.round(rng.uniform(0.1, 3), 2)) * sc * sc)
                 if r < 0.15:
                     iv["do"][j] = par
                 elif r < 0.3:
@@ -246,6 +251,7 @@ def judge(family, case, rec):
         rec.exception_violation("C06:lganm-exception", family, case, "LGANM population sampling raised", e)
         return
     cf = np.asarray(dist.covariance, dtype=float)
+    absA = np.abs(np.linalg.inv(np.eye(p) - Wf.T))
     intervened = any(iv[k] for k in iv)
     for j in range(p):
         pa = [i for i in range(p) if Wi[i][j] != 0]
@@ -256,7 +262,7 @@ def judge(family, case, rec):
         if intervened:
             rec.count("lganm:intervened")
         vj = float(vari[j])
-        if vj < 0.05:
+        if vj < 0.05 * float(np.max(np.diag(cf))) * 1e-9 or vj <= 0:
             rec.count("lganm:variance-too-small")
             continue
         kS = float(np.linalg.cond(cf[np.ix_(pa, pa)])) if pa else 1.0
@@ -285,9 +291,13 @@ def judge(family, case, rec):
             rec.violation("C06:lganm-weights-not-recovered", family, sub,
                           "regressing X%d on its parents gives %s, incoming weights are %s (err %.3g, tol %.3g)"
                           % (j, coefs[pa].tolist(), want[pa].tolist(), err, rel * sc), **ctx)
-        mu_scale = abs(float(mui[j])) + float(np.sum(np.abs(want) * np.abs(np.asarray(dist.mean, dtype=float)))) + 1.0
+        # natural magnitude of the intercept computation: absolute path sums of the means (the population means themselves
+        # carry a rounding error relative to these sums, not to their possibly cancelled values)
+        absmean = absA @ np.abs(np.array([float(x) for x in mui]))
+        # (normwise: the computed inverse of I - W^T is accurate relative to its largest entries, not row by row)
+        mu_scale = float(absmean.max()) * (1.0 + float(np.sum(np.abs(want)))) + 1e-300
         if abs(float(intercept) - float(mui[j])) > rel * sc * mu_scale:
             rec.violation("C06:lganm-intercept-not-noise-mean", family, sub,
                           "intercept %.17g, noise mean %.17g" % (float(intercept), float(mui[j])), **ctx)
-        if abs(mse - vj) > rel * sc * max(float(cf[j, j]), 1.0):
+        if abs(mse - vj) > rel * sc * float(cf[j, j]):
             rec.violation("C06:lganm-mse-not-noise-variance", family, sub, "mse %.17g, noise variance %.17g" % (mse, vj), **ctx)
